@@ -18,12 +18,14 @@ import (
 
 // Step is one trace step: observed pre-state, the operation as the model sees it, the observed result, observed post-state.
 type Step struct {
-	Src   string // the scenario line that produced it
-	Pre   string
-	Op    string
-	Res   string
-	Post  string
-	Notes []string // monitor verdicts, '#'-prefixed in the trace
+	Src       string // the scenario line that produced it
+	PreS      *State
+	Op        string
+	Res       string
+	PostS     *State
+	Notes     []string // error details and monitor verdicts, '#'-prefixed in the trace
+	Evs       sdk.Events
+	Unhealthy string
 }
 
 func classifyErr(err error) string {
@@ -59,6 +61,7 @@ func classifyErr(err error) string {
 		{"rewardChangeRate must be", "invalid_change_rate"},
 		{"rewardChangeInterval must be", "invalid_change_interval"},
 		{"duration must be positive", "invalid_duration"},
+		{"takeRateClaimInterval must be", "invalid_interval"},
 		{"slashed fraction must be", "invalid_fraction"},
 		{"invalid (zero) ex-rate", "invalid_ex_rate"},
 	}
@@ -221,14 +224,19 @@ func (e *Env) Exec(line string) []Step {
 	if len(f) == 0 || strings.HasPrefix(f[0], "#") {
 		return nil
 	}
-	pre := e.Dump()
-	st := Step{Src: line, Pre: pre}
+	if e.lastSnap == nil {
+		e.lastSnap = e.Snapshot()
+	}
+	st := Step{Src: line, PreS: e.lastSnap}
 	k := e.App.AllianceKeeper
 	env := func(fn func()) []Step {
 		fn()
 		st.Op = "O env W 0"
 		st.Res = "R ok"
-		st.Post = e.Dump()
+		st.PostS = e.Snapshot()
+		e.lastSnap = st.PostS
+		e.Monitor(&st)
+		e.Probe(&st)
 		return []Step{st}
 	}
 	finish := func(op, res string, evs sdk.Events) []Step {
@@ -241,7 +249,11 @@ func (e *Env) Exec(line string) []Step {
 		}
 		st.Op = "O " + op + " " + e.withdrawals(evs)
 		st.Res = "R " + res
-		st.Post = e.Dump()
+		st.Evs = evs
+		st.PostS = e.Snapshot()
+		e.lastSnap = st.PostS
+		e.Monitor(&st)
+		e.Probe(&st)
 		return []Step{st}
 	}
 	switch f[0] {
